@@ -85,7 +85,9 @@ impl Scanner {
 
     pub(crate) fn goback(&mut self, pre: (usize, bool)) {
         self.pos = pre.0;
-        self.semicolon = pre.1
+        self.semicolon = pre.1;
+        // forget the lines seen after the restored position, they will be scanned again
+        self.lines.retain(|&line_start| line_start <= pre.0);
     }
 
     pub(crate) fn line_info(&self, pos: usize) -> (usize, usize) {
